@@ -2,8 +2,10 @@ SPECIFICATION Spec
 CONSTANTS
   DevVerifyDisablesTofu = FALSE
   DevSchemePrefixed = FALSE
+  DevMarkupInterpreted = FALSE
 INVARIANT TofuAsRequested
 INVARIANT RedirectsAsRequested
 INVARIANT VerifyAsRequested
 INVARIANT UrlAsGiven
+INVARIANT ShownUnchanged
 CHECK_DEADLOCK FALSE
